@@ -22,6 +22,7 @@ FILEV = models.opaque_type('B2File', pytype='dict')
 def env(b):
     me = Obj('self', _auth=Obj('auth', apiUrl=sym.const(STR, 'apiUrl'), downloadUrl=sym.const(STR, 'downloadUrl'),
                                authorizationToken=sym.const(STR, 'authToken'), accountId=sym.const(STR, 'accountId')))
+    me._class_source = (B2_PY, 'B2')          # helpers extracted from the adapter's methods are the real methods, inlined
     b.bind('self', me)
     b.me = me
     b.sym('name', STR)
